@@ -231,7 +231,7 @@ def lmmm_cases(ck, n_cases, n_samples):
 # second generator ("xgen"): typed random programs over the part of the core language the Lmmm model does not cover
 # (closures with captured/assigned variables, makers, higher-order functions, tuples and destructuring, tuple-valued self,
 #  recursion, arrays, pipes, blocks, non-integer arithmetic and the math intrinsics). Oracle: the real VM only.
-# One delay size per program (never class F3); branching constructs never inside a tuple literal (never class F13).
+# One delay size per program (never class F3); branching constructs never inside a tuple literal (former finding F13, repaired).
 # ---------------------------------------------------------------------------------------------------------
 XLITS = ["0.0", "1.0", "2.0", "3.0", "(-1.0)", "0.5", "0.25", "1.5", "(-2.5)", "0.1", "10.0", "7.0"]
 F21_BUILTINS = ["round", "floor", "ceil", "not", "tan", "sinh", "cosh", "tanh", "asin", "acos", "atan", "atan2"]
@@ -345,6 +345,29 @@ class XGen:
             ts = [f for f in self.funs if f["kind"] == "tself"]
             if ts and st:
                 return "%s(%s).%d" % (r.choice(ts)["name"], sub(), r.below(2))
+        if c < 37 and r.chance(1, 2):
+            k = r.below(6)
+            ss = [f for f in self.funs if f["kind"] == "sum"]
+            es = [f for f in self.funs if f["kind"] == "enum" and (st or not f["stateful"])]
+            ns = [f for f in self.funs if f["kind"] == "nmatch"]
+            rv = self.vars_of(env, 'rec')
+            f2 = [f for f in self.funs if f["kind"] == "f1" and f["arity"] == 2 and (st or not f["stateful"])]
+            if k == 0 and ss:
+                f = r.choice(ss)
+                if r.chance(1, 2):
+                    return "%s(%s(%s))" % (f["name"], f["c1"], sub(noif=True))
+                return "%s(%s((%s, %s)))" % (f["name"], f["c2"], sub(noif=True), sub(noif=True))
+            if k == 1 and es:
+                f = r.choice(es)
+                return "%s(%s, %s)" % (f["name"], r.choice(f["ctors"]), sub())
+            if k == 2 and ns:
+                return "%s(%s)" % (r.choice(ns)["name"], r.choice(["0", "1", "2", "5"]))
+            if k == 3 and rv:
+                return "%s.%s" % (r.choice(rv), r.choice(["a", "b"]))
+            if k == 4 and f2:
+                return "((%s, %s) |> %s)" % (sub(noif=True), sub(noif=True), r.choice(f2)["name"])
+            if k == 5:
+                return "(%s %s %s)" % (sub(), r.choice(["+", "*", "-"]), r.choice(["1", "2", "3"]))
         if st:
             if c < 38:
                 return "mem(%s)" % sub()
@@ -391,6 +414,14 @@ class XGen:
                 y, x = self.fresh("y"), self.fresh("c")
                 lines.append("let %s = |%s| { %s }" % (x, y, self.fexpr(min(d, 2), env + [(y, 'f')], False, True, False)))
                 env.append((x, 'ff'))
+            elif c < 10 and r.chance(1, 2):
+                x = self.fresh("r")
+                rv = self.vars_of(env, 'rec')
+                if rv and r.chance(1, 2):
+                    lines.append("let %s = { %s <- %s = %s }" % (x, r.choice(rv), r.choice(["a", "b"]), self.fexpr(d - 1, env, fn, True, st)))
+                else:
+                    lines.append("let %s = {a = %s, b = %s}" % (x, self.fexpr(d - 1, env, fn, True, st), self.fexpr(d - 1, env, fn, True, st)))
+                env.append((x, 'rec'))
             elif c < 11 and mut:
                 x = r.choice(mut)
                 lines.append("%s = %s" % (x, self.fexpr(d - 1, env, fn, False, st)))
@@ -413,8 +444,9 @@ class XGen:
         out = []
         genv = []
         for _ in range(r.below(6)):
-            kind = r.choice(["f1", "f1", "f1", "tup", "hof", "mk", "mk0", "rec", "tself"])
-            name = self.fresh({"f1": "fa", "tup": "ft", "hof": "fh", "mk": "mk", "mk0": "mz", "rec": "fr", "tself": "fs"}[kind])
+            kind = r.choice(["f1", "f1", "f1", "f1", "tup", "hof", "mk", "mk0", "rec", "tself", "sum", "enum", "nmatch"])
+            name = self.fresh({"f1": "fa", "tup": "ft", "hof": "fh", "mk": "mk", "mk0": "mz", "rec": "fr", "tself": "fs",
+                               "sum": "fu", "enum": "fe", "nmatch": "fn"}[kind])
             d = r.range(1, 3)
             if kind == "f1":
                 ps = [self.fresh("q") for _ in range(r.below(3))]
@@ -452,6 +484,27 @@ class XGen:
                 txt = "fn %s(%s){\n  if (%s > 0.0) {\n    %s(%s - 1.0) %s %s\n  } else {\n    %s\n  }\n}" % (
                     name, n, n, name, n, r.choice(["+", "*", "-"]), self.fexpr(d, genv + [(n, 'f')], False, True, False), r.choice(XLITS))
                 self.funs.append({"name": name, "kind": "rec", "stateful": False})
+            elif kind == "sum":
+                ty, c1, c2 = self.fresh("Shape"), self.fresh("Circ"), self.fresh("Rect")
+                sv, a, w, h = self.fresh("q"), self.fresh("p"), self.fresh("p"), self.fresh("p")
+                txt = "type %s = %s(float) | %s(float, float)\nfn %s(%s: %s) -> float {\n  match %s {\n    %s(%s) => %s,\n    %s((%s, %s)) => %s,\n  }\n}" % (
+                    ty, c1, c2, name, sv, ty, sv, c1, a, self.fexpr(d, genv + [(a, 'f')], False, True, False),
+                    c2, w, h, self.fexpr(d, genv + [(w, 'f'), (h, 'f')], False, True, False))
+                self.funs.append({"name": name, "kind": "sum", "c1": c1, "c2": c2, "stateful": False})
+            elif kind == "enum":
+                ty = self.fresh("Dir")
+                ctors = [self.fresh("Up"), self.fresh("Down"), self.fresh("Left")][:r.choice([2, 3])]
+                sv, x = self.fresh("q"), self.fresh("q")
+                arm_st = r.chance(1, 4)      # direct mem/delay in a match arm is class F27
+                arms = [self.fexpr(d, genv + [(x, 'f')], False, True, arm_st) for _ in ctors]
+                txt = "type %s = %s\nfn %s(%s: %s, %s: float) -> float {\n  match %s {\n%s\n  }\n}" % (
+                    ty, " | ".join(ctors), name, sv, ty, x, sv, "\n".join("    %s => %s," % (c_, a_) for c_, a_ in zip(ctors, arms)))
+                self.funs.append({"name": name, "kind": "enum", "ctors": ctors, "stateful": self.is_stateful("\n".join(arms), self.funs)})
+            elif kind == "nmatch":
+                sv = self.fresh("q")
+                txt = "fn %s(%s) {\n  match %s {\n    0 => %s\n    1 => %s\n    _ => %s\n  }\n}" % (
+                    name, sv, sv, r.choice(["100", "10", "7"]), r.choice(["200", "20", "3"]), r.choice(["300", "30", "1"]))
+                self.funs.append({"name": name, "kind": "nmatch", "stateful": False})
             else:
                 x, a, b = self.fresh("q"), self.fresh("p"), self.fresh("p")
                 env = genv + [(x, 'f'), (a, 'f'), (b, 'f')]
@@ -606,15 +659,15 @@ def judge(c, R, V, W, ref_bits, findings, methods):
             len(R["samples"]), R["msg"], "runs on" if V["st"] == "ok" else V["st"] + " " + V["msg"])
     else:
         why = "the VM %s (%s) where the generated Rust runs" % (V["st"], V["msg"])
-    hits = [k for k in ("F3", "F13") if k in c["cls"] and k in findings]
+    if "F27" in findings and stateful_primitive_in_match_arm(c["src"]) and (V["st"] in ("panic", "absent") or (R["st"] == "ok" and V["st"] == "ok")):
+        return ("known", "F27", src1 + " -> " + why[:140])
+    hits = [k for k in ("F3",) if k in c["cls"] and k in findings]
     if hits:
         # known defects of the VM / of the shared MIR lowering: the oracle is the reference semantics, else the WASM runtime
         if full_R and ref_bits is not None and R["samples"] == ref_bits:
             return ("known", hits[0], src1 + " -> rust = reference semantics; " + why[:120])
         if full_R and W["st"] == "ok" and R["samples"] == W["samples"]:
             return ("known", hits[0], src1 + " -> rust = WASM; " + why[:120])
-        if "F13" in hits and V["st"] == "compile_panic" and R["st"] == "run" and not R["samples"] and "invalid memory handle" in R["msg"]:
-            return ("known", "F13", src1 + " -> VM: compiler panic; generated Rust: " + R["msg"][:80])
         if V["st"] == "absent" and W["st"] == "ok" and full_R and R["samples"] == W["samples"]:
             return ("ok", "rust_eq_wasm_vm_skipped")
         return fail(why + " (program in class %s, but the generated Rust equals neither the reference semantics nor WASM)" % "/".join(hits),
@@ -671,19 +724,19 @@ def projection_spans(src):
 
 
 def has_projection_operand(src):
-    """syntactic part of class F24: a tuple/record field projection written directly as the input of mem/delay, as a delay time,
-    as an array index or as the value of an `if`/`match` arm"""
+    """syntactic part of class F24: a tuple/record field projection that is not an operand of an arithmetic/comparison operator
+    or of a call, i.e. written directly as the input of mem/delay, as a delay time, as an array index, or as the value of a
+    block / `if` / `match` arm (possibly the block that is the mem/delay operand)"""
     for a, b in projection_spans(src):
-        before, after = src[:a].rstrip(), src[b:].lstrip()
-        if before.endswith("mem(") and after.startswith(")"):
+        before, after = src[:a].rstrip(), src[b:]
+        nxt = after.lstrip(" ")[:1]
+        if before.endswith("mem(") and nxt == ")":
             return True
-        if before.endswith("[") and after.startswith("]"):
+        if before.endswith("[") and nxt == "]":
             return True
-        if before.endswith("{") and after.startswith("}"):
+        if nxt == "}" or before.endswith("=>") or (nxt in ("\n", "") and after.lstrip()[:1] == "}"):
             return True
-        if before.endswith("=>"):
-            return True
-        if before.endswith(",") and (after.startswith(",") or after.startswith(")")) and "delay(" in before:
+        if before.endswith(",") and nxt in (",", ")") and "delay(" in before:
             return True
     return False
 
@@ -731,6 +784,56 @@ def handle_like_bits(case):
     return False
 
 
+def lambda_bodies(src):
+    """texts of the bodies of lambda expressions  |params| { body }"""
+    out = []
+    for m in re.finditer(r"\|[^|\n]*\|\s*\{", src):
+        depth, j = 0, m.end() - 1
+        while j < len(src):
+            if src[j] == "{":
+                depth += 1
+            elif src[j] == "}":
+                depth -= 1
+                if depth == 0:
+                    break
+            j += 1
+        out.append(src[m.end():j])
+    return out
+
+
+def assigned_captured_local(src):
+    """syntactic part of class F26: a variable that is assigned (`v = e`, not `let`) and also occurs inside a lambda body.
+    The class is confirmed dynamically: the generated Rust must equal the WASM runtime at every sample."""
+    bodies = lambda_bodies(src)
+    names = set()
+    for m in re.finditer(r"(?<![\w.])([A-Za-z_]\w*)\s*=(?![=>])", src):
+        if not re.search(r"\b(let|letrec)\s*$", src[:m.start()]) and not re.search(r"[<>!=]$", src[:m.start()]):
+            names.add(m.group(1))
+    for v in names:
+        if any(re.search(r"\b%s\b" % re.escape(v), b) for b in bodies):
+            return True
+    return False
+
+
+def stateful_primitive_in_match_arm(src):
+    """class predicate of finding F27: mem / delay / self written directly in an arm of a `match`"""
+    for m in re.finditer(r"\bmatch\b[^{]*\{", src):
+        depth, j = 0, m.end() - 1
+        while j < len(src):
+            if src[j] == "{":
+                depth += 1
+            elif src[j] == "}":
+                depth -= 1
+                if depth == 0:
+                    break
+            j += 1
+        body = src[m.end():j]
+        for arm in re.split(r"\n", body):
+            if "=>" in arm and re.search(r"\b(mem|delay)\(|\bself\b", arm.split("=>", 1)[1]):
+                return True
+    return False
+
+
 REWRITE_CLASSES = [
     # (finding id, syntactic predicate, rewrite)
     ("F24", has_projection_operand, rw_projections),
@@ -748,7 +851,8 @@ def failure_signature(R, V):
     if R["st"] == "run" and V["st"] == "ok":
         return "rust-run-fails"
     if R["st"] == "ok" and V["st"] == "ok" and R["samples"] != V["samples"]:
-        return "samples-differ"
+        # (the width keeps the shrinker from turning dsp into something that returns a closure / nothing)
+        return "samples-differ/%d/%d" % (len(R["samples"][0]) if R["samples"] else -1, len(V["samples"][0]) if V["samples"] else -1)
     if R["st"] in ("refused", "emit_panic") and V["st"] == "ok":
         return "rust-" + R["st"]
     return None
@@ -788,7 +892,8 @@ def _parts(txt):
         cur += ch
         i += 1
     parts.append(cur)
-    return [p.strip() for p in parts if p.strip() and p.strip() != inner.strip()]
+    # (a lambda is never a replacement for a float expression)
+    return [p.strip() for p in parts if p.strip() and p.strip() != inner.strip() and not p.strip().startswith("|")]
 
 
 def shrink_candidates(src):
@@ -945,7 +1050,7 @@ def run(ck):
         else:
             viol.append((verdict[1], i, verdict[2]))
 
-    # ---- failures outside the syntactic classes: do they belong to a class confirmed by rewriting? ----
+    # ---- failures outside the syntactic classes: do they belong to a class confirmed by rewriting / by the WASM runtime? ----
     if viol:
         cand = []   # (violation case index, ids rewritten, rewritten case)
         for what, i, det in viol:
@@ -954,12 +1059,16 @@ def run(ck):
                 continue
             ids = [fid for fid, pred, rw in REWRITE_CLASSES if fid in findings and pred(c["src"])]
             subsets = [[fid] for fid in ids] + ([ids] if len(ids) > 1 else [])
+            f26 = "F26" in findings and assigned_captured_local(c["src"])
+            if f26 or ("F21" in findings and uses_missing_builtin(c["src"])):
+                subsets = [[]] + subsets
             for sub in subsets:
                 src2 = c["src"]
                 for fid, pred, rw in REWRITE_CLASSES:
                     if fid in sub:
                         src2 = rw(src2)
-                cand.append((i, sub, dict(c, src=src2, prog=None, cls=set())))
+                c2 = dict(c, src=src2, prog=None, cls=({"F26"} if f26 else set()))   # a non-empty class makes vm_requests add WASM
+                cand.append((i, sub, c2))
         cleared = {}
         if cand:
             cs = [x[2] for x in cand]
@@ -967,17 +1076,28 @@ def run(ck):
             vv = run_impl(vexe, vm_requests(cs))
             for (i, sub, c2), a, b in zip(cand, rr, vv):
                 R2 = rust_status(a)
-                V2 = backend_status((b or {}).get("vm")) if b and 'crash' not in b else {"st": "panic", "samples": [], "msg": ""}
-                if R2["st"] == "ok" and V2["st"] == "ok" and len(R2["samples"]) == c2["n"] and R2["samples"] == V2["samples"]:
-                    if i not in cleared or len(sub) < len(cleared[i]):
-                        cleared[i] = sub
+                dead = {"st": "panic", "samples": [], "msg": ""}
+                V2 = backend_status((b or {}).get("vm")) if b and 'crash' not in b else dead
+                W2 = backend_status((b or {}).get("wasm")) if b and 'crash' not in b else dead
+                full = R2["st"] == "ok" and len(R2["samples"]) == c2["n"]
+                ids = None
+                if full and V2["st"] == "ok" and R2["samples"] == V2["samples"]:
+                    ids = list(sub)
+                elif full and c2["cls"] and W2["st"] == "ok" and R2["samples"] == W2["samples"]:
+                    ids = list(sub) + ["F26"]
+                else:
+                    v2 = judge(dict(c2, cls=set()), R2, V2, W2, None, findings, methods)
+                    if v2[0] == "known" and v2[1] == "F21":
+                        ids = list(sub) + ["F21"]
+                if ids and (i not in cleared or len(ids) < len(cleared[i])):
+                    cleared[i] = ids
         keep = []
         for what, i, det in viol:
-            if i in cleared:
+            if cleared.get(i):
                 for fid in cleared[i]:
                     ck.known(findings[fid], cases[i]["src"].replace("\n", " ")[:150] + " -> " + what[:140])
                     bump("known_" + fid)
-                bump("%s:known_by_rewrite" % cases[i]["kind"])
+                bump("%s:known_by_rewrite_or_wasm" % cases[i]["kind"])
                 stats["%s:viol" % cases[i]["kind"]] -= 1
             else:
                 keep.append((what, i, det))
@@ -1005,7 +1125,7 @@ def run(ck):
     ck.coverage["fixtures_run"] = len(fixtures)
     ck.coverage["stats"] = dict(sorted(stats.items()))
     ck.coverage["feature_totals_generated"] = feats
-    ck.coverage["classes_generated"] = {k: sum(1 for c in cases if k in c["cls"]) for k in ("F3", "F13")}
+    ck.coverage["classes_generated"] = {k: sum(1 for c in cases if k in c["cls"]) for k in ("F3",)}
     if rustc_ms:
         ck.coverage["rustc_ms_median"] = sorted(rustc_ms)[len(rustc_ms) // 2]
     gen_idx = [i for i, c in enumerate(cases) if c["kind"] == "gen"]
@@ -1040,7 +1160,7 @@ def finish(ck):
                      "text by translators/rustrt_template.py) agree with the cursor machine's primitives of Lmmm/Machine.v wherever the VM "
                      "discipline is defined. COMPARED (not proved): everything else - rustgen.rs is not modelled; generated core programs and the "
                      "shipped fixtures are emitted, compiled with rustc and run, and every output sample is compared bit for bit with the real VM "
-                     "and with the extracted reference semantics; programs in the classes of the known VM/MIR defects F3/F13 are compared with "
+                     "and with the extracted reference semantics; programs in the class of the known VM defect F3 (two delay sizes in one function) are compared with "
                      "the reference semantics / WASM instead. Plugin-dependent programs must be refused (at emit time or by a run-time error naming "
                      "the external)."),
         trusted_base=["rustc 2024 edition (the repo's own recipe: rustc --edition=2024 <generated source + mimium_test_main.rs.template>)",
